@@ -88,3 +88,5 @@ impl Instant {
     #[verifier::external_body]
     pub fn elapsed(&self) -> (r: Duration) { unimplemented!() }
 }
+pub assume_specification[::std::time::Duration::as_millis](a: &Duration) -> (r: u128)
+    ensures r as nat == dur_ns(*a) / 1_000_000;
